@@ -884,7 +884,10 @@ class C01(core.Check):
                   "GridFlow, Scrollable/ScrollBar).  Everything - all nine constructors, the three sizing modes, sizing() flags, "
                   "rows(), pack(), render() sizes and cursors, which error is raised - is tied to the code by an exact extracted-model "
                   "correspondence on ~1.5k well-formed trees x ~8 probes per quick run (random trees plus exhaustive small scopes "
-                  "for weighted Columns / Piles / Filler scrolling / widgets without rows in every container), and the property itself is judged on the real canvases "
+                  "for weighted Columns / Piles / Filler scrolling / widgets without rows in every container / Text with control and "
+                  "line-boundary characters / SelectableIcon cursor positions / Scrollable around fixed widgets on a size grid / row "
+                  "trimming of canvases whose cviews span several shards; rows() and pack() are asked before render() with an empty "
+                  "CanvasCache, canvas.content() is iterated completely), and the property itself is judged on the real canvases "
                   "(cols/rows vs request/rows()/pack(), calc_width of every content row, row count, cursor) including the leaves "
                   "the model only assumes.")
     level_note = ("Trusted: Coq kernel; ExtrOcamlBasic extraction + OCaml driver; the hand-written model Model/WidgetDims.v (validated "
